@@ -57,3 +57,35 @@ Example C03_example :
   validate s (128, 100, 0, 64, 0, 64) = Ok false /\
   validate s (0, 64, 0, 64, 0, 63) = Ok false.
 Proof. repeat split. Qed.
+
+(* ---- closed instances: the codec hypothesis discharged by C02/C10 ---- *)
+From NGS Require Import Words Arr4 CSegEncode CSegDecode RawCodec LinkCodec LinkProofs.
+
+(* raw encoding, any item size > 0 and channel count: for EVERY sequence of
+   writes and reads of (C,Z,Y,X) arrays whose extents match their positions, a
+   read returns the last array written there *)
+Theorem C03_io_refinement_raw : forall isz nc scales ops k c,
+  isz <> 0%N ->
+  Forall (well_shaped arr4 arr_shape) ops ->
+  check_valid scales k c = Ok tt ->
+  read_chunk arr4 (list N) (raw_dec isz nc) scales
+    (fst (run arr4 (list N) (raw_enc isz nc) (raw_dec isz nc) scales [] ops)) k c
+  = match last_written arr4 (list N) (raw_enc isz nc) scales ops k c None with
+    | Some a => Ok a
+    | None => AccessErr
+    end.
+Proof. exact io_refinement_raw. Qed.
+Print Assumptions C03_io_refinement_raw.
+
+(* compressed_segmentation, both label types, any block size *)
+Theorem C03_io_refinement_cseg : forall dt nc g scales ops k c,
+  Forall (well_shaped arr4 arr_shape) ops ->
+  check_valid scales k c = Ok tt ->
+  read_chunk arr4 (list N) (cseg_dec dt nc g) scales
+    (fst (run arr4 (list N) (cseg_enc dt nc g) (cseg_dec dt nc g) scales [] ops)) k c
+  = match last_written arr4 (list N) (cseg_enc dt nc g) scales ops k c None with
+    | Some a => Ok a
+    | None => AccessErr
+    end.
+Proof. exact io_refinement_cseg. Qed.
+Print Assumptions C03_io_refinement_cseg.
